@@ -79,11 +79,15 @@ def c02(run):
             flav.append({"flavour": fl, "array": arr, "yymore": True, "reject": True})
     for t in ("-Cf", "-CF", "-Cfe", "-Ca", "-C"):
         flav.append({"tbl": t, "yymore": True})
+    # the c99 back end (its own skeleton): same specification, same traces
+    flav += [{"flavour": "c99", "yymore": True, "reject": True}, {"flavour": "c99", "yymore": True, "array": True},
+             {"flavour": "c99", "array": True, "reject": True}, {"flavour": "c99", "tbl": "-CF", "userread": False},
+             {"flavour": "c99", "tbl": "-Cf", "yymore": True, "userwrap": True}, {"flavour": "c99", "tbl": "-Cm", "interactive": False}]
     srcs = hand[:3] + [s for s in core if s["profile"] in ("mix", "nul", "sc", "trail")]
     cases = units.product_unit(run, fd, srcs, flav, tag="flavours", san=True)
     units.trace_unit(run, cases, rng, per_case=16 if q else 60, tag="flavtraces", full_cover=40 if q else 200)
     run.assumptions += ["go back end is outside the property (not a documented back end)",
-                        "C++ class and c99 back ends: see checks C12/C19 (own harness)"]
+                        "C++ lexer class: see checks C12/C19 (own harness)"]
 
 
 @check("C04")
@@ -94,6 +98,8 @@ def c04(run):
     srcs = [s for s in fam(run, profiles=("nul", "high", "seven", "mix"), core=4 if q else 12, rnd=30)]
     srcs = [s for s in srcs if s.get("profile") or "nul" in s.get("name", "")]
     cfgs = tbl_cfgs(["", "-C", "-Cf", "-CF", "-Cfe", "-CFe", "-Cfa"], inter=(None, False)) + tbl_cfgs(["", "-Cm"], inter=(None, False), reject=(True,))
+    cfgs += [{"flavour": "c99", "tbl": t} for t in ("", "-Cf", "-CF", "-Cfe")] + [{"flavour": "c99", "interactive": False, "reject": True},
+                                                                                   {"flavour": "c99", "array": True, "yymore": True}]
     cases = units.product_unit(run, fd, srcs, cfgs, tag="product", san=True)
 
     def nul_inputs(c, rng, n):
@@ -116,16 +122,9 @@ def c06(run):
     rng = random.Random(run.seed)
     q = run.tier == "quick"
     srcs = fam(run, profiles=("trail", "anch", "bol", "bar", "mix"), core=6 if q else 20, rnd=60)
-    cfgs = [{"tbl": ""}, {"tbl": "-Cf"}, {"tbl": "-CF"}, {"tbl": "", "reject": True, "interactive": False}]
+    cfgs = [{"tbl": ""}, {"tbl": "-Cf"}, {"tbl": "-CF"}, {"tbl": "", "reject": True, "interactive": False}, {"flavour": "c99"}]
     cases = units.product_unit(run, fd, srcs, cfgs, tag="product", san=True)
     units.trace_unit(run, [c for c in cases if c.status == "ok"], rng, per_case=6 if q else 20, tag="traces", full_cover=600 if q else 3000)
-    def bar_probe(sub):
-        P = rulesets.P
-        r1 = rulesets.rule(P.chr_(97), dollar=True); r1["bar"] = True
-        src = rulesets.ruleset([r1, rulesets.rule(P.chr_(99)), rulesets.rule(P.chr_(10))], name="probe-bar-after-dollar")
-        cs = units.product_unit(sub, fd, [src], [{}], tag="p", san=True)
-        units.trace_unit(sub, cs, random.Random(1), per_case=1, tag="t", scripts=False, inputs_fn=lambda c, r, n: [bytes([97, 10, 99])])
-    run.probe("bar-after-dollar", bar_probe)
     run.assumptions += ["rule sets for which flex prints 'dangerous trailing context' are skipped (as the property allows)",
                         "whether a rule is compiled as *variable* trailing context is taken from the artifact (DESIGN.md C06)"]
 
@@ -136,7 +135,8 @@ def c07(run):
     rng = random.Random(run.seed)
     q = run.tier == "quick"
     srcs = fam(run, profiles=("lit", "ops", "trail", "sc", "mix", "ccl", "rep"), core=3 if q else 10, rnd=40)
-    cfgs = [{"tbl": "", "reject": True, "yymore": True}, {"tbl": "-Cm", "reject": True, "interactive": False}]
+    cfgs = [{"tbl": "", "reject": True, "yymore": True}, {"tbl": "-Cm", "reject": True, "interactive": False},
+            {"flavour": "c99", "reject": True, "yymore": True}]
     cases = units.product_unit(run, fd, srcs, cfgs, tag="product", san=True)
     units.trace_unit(run, [c for c in cases if c.status == "ok"], rng, per_case=24 if q else 80, tag="rejtraces",
                      full_cover=40 if q else 200)
@@ -217,7 +217,7 @@ def c05(run):
     mc = units.model_async(run, invariants=(), properties=('ScOnly', 'StackLIFO'))
     srcs = fam(run, profiles=("sc", "sc3", "anch", "mix"), core=6 if q else 20, rnd=60)
     # activation: all inputs, all (condition, bol) start states, rendered as prefixes and as scopes
-    cfgs = [{"tbl": "", "stack": True}, {"tbl": "", "scopes": True}, {"tbl": "-Cf"}, {"tbl": "", "reject": True}]
+    cfgs = [{"tbl": "", "stack": True}, {"tbl": "", "scopes": True}, {"tbl": "-Cf"}, {"tbl": "", "reject": True}, {"flavour": "c99", "stack": True}]
     cases = units.product_unit(run, fd, srcs, cfgs, tag="product", san=True)
     ok = [c for c in cases if c.status == "ok" and not c.cfg.get("scopes")]
     units.trace_unit(run, ok, rng, per_case=10 if q else 40, tag="sctraces", full_cover=400 if q else 3000)
@@ -230,6 +230,18 @@ def c05(run):
         if len(job["input"]) < 3: job["input"] = job["input"] + bytes(c.alphabet[:3])
         return job
     units.trace_unit(run, deep, rng, per_case=8, tag="deepstack", job_filter=jf)
+    # start-condition calls made while no scan is in progress: before the first yylex() call (also: after the
+    # yylex_destroy() that ended the previous job of the same process), between calls, after the end of input
+    def precall(c, job):
+        r = random.Random(hash((c.id, bytes(job["input"]), "pre")) & 0xffffffff)
+        nsc = len(c.src["scs"])
+        pre = [(r.choice("BP"), r.randrange(nsc)) for _ in range(r.randint(1, 3))]
+        if not c.cfg.get("stack", True): pre = [("B", a) for _, a in pre]
+        job["outs"] = pre + [("-", 0)] + [x for _ in range(4) for x in ([(r.choice("BPO"), r.randrange(nsc))] if r.random() < 0.5 else []) + [("-", 0)]]
+        job["ops"] = [x for _ in range(8) for x in ([("O", 0)] if r.random() < 0.5 else []) + [("T", 0) if r.random() < 0.6 else ("-", 0)]]
+        job["initsc"] = 0
+        return job
+    units.trace_unit(run, [c for c in ok if c.cfg.get("stack", True)][:40 if q else 200], rng, per_case=6 if q else 20, tag="precall", job_filter=precall, scripts=False)
     run.assumptions.append("calls between yylex() calls and across yyrestart/buffer switches: see the buffer units of C10/C11")
     mc.result()
 
@@ -246,6 +258,7 @@ def c08(run):
         for fl in ("nr", "r"):
             cfgs.append({"flavour": fl, "array": arr, "yymore": True})
     cfgs.append({"tbl": "-Cf", "yymore": True})
+    cfgs += [{"flavour": "c99", "yymore": True}, {"flavour": "c99", "yymore": True, "array": True}]
     cases = units.product_unit(run, fd, srcs, cfgs, tag="product", san=True)
     def arrayless_probe(sub):
         src = rulesets.handwritten()[0]
@@ -272,7 +285,7 @@ def c09(run):
     srcs = fam(run, profiles=("lit", "dot", "ccl", "posix", "setop", "grp", "ref", "trail", "anch", "mix"), core=2 if q else 10, rnd=30)
     srcs += newline_forms()
     cfgs = [{"yymore": True}, {"flavour": "r", "yymore": True}, {"reject": True, "interactive": False},
-            {"array": True, "yymore": True}, {"yylineno": "no"}, {"tbl": "-Cf"}]
+            {"array": True, "yymore": True}, {"yylineno": "no"}, {"tbl": "-Cf"}, {"flavour": "c99", "yymore": True, "reject": True}]
     cases = units.product_unit(run, fd, srcs, cfgs, tag="product", san=True)
 
     def nl_inputs(c, rng, n):
@@ -346,7 +359,7 @@ def c10(run):
     q = run.tier == "quick"
     srcs = fam(run, profiles=("sc3", "sc", "lit", "trail", "anch", "mix"), core=3 if q else 10, rnd=40)
     cfgs = [{"userwrap": True}, {"userwrap": True, "flavour": "r"}, {"userwrap": False}, {"userwrap": True, "tbl": "-Cf"},
-            {"userwrap": True, "reject": True, "interactive": False}]
+            {"userwrap": True, "reject": True, "interactive": False}, {"userwrap": True, "flavour": "c99"}]
     cases = units.product_unit(run, fd, srcs, cfgs, tag="product", san=True)
     ok = [c for c in cases if c.status == "ok"]
     units.trace_unit(run, ok, rng, per_case=16 if q else 60, tag="eof", job_filter=buffer_jobs("eof"), scripts=False)
@@ -359,7 +372,8 @@ def c11(run):
     q = run.tier == "quick"
     mc = units.model_async(run, invariants=('Conservation',), properties=('Isolation',))
     srcs = fam(run, profiles=("lit", "sc", "ccl", "anch", "nul", "mix"), core=3 if q else 10, rnd=40)
-    cfgs = [{"userwrap": False}, {"userwrap": True}, {"userwrap": False, "flavour": "r"}, {"userwrap": True, "flavour": "r", "tbl": "-Cf"}]
+    cfgs = [{"userwrap": False}, {"userwrap": True}, {"userwrap": False, "flavour": "r"}, {"userwrap": True, "flavour": "r", "tbl": "-Cf"},
+            {"userwrap": True, "flavour": "c99"}]
     cases = units.product_unit(run, fd, srcs, cfgs, tag="product", san=True)
     ok = [c for c in cases if c.status == "ok"]
     units.trace_unit(run, ok, rng, per_case=20 if q else 80, tag="buffers", job_filter=buffer_jobs("buf"), scripts=False)
@@ -375,7 +389,8 @@ def c03(run):
     # (a) no over-read / schedule independence with the harness's own YY_INPUT: every Read event must be
     #     needed (strictread), for interactive and batch scanners, buffer sizes 1..64 and every read-size pattern
     cfgs = [{"interactive": True}, {"interactive": False}, {"tbl": "-Cf"}, {"tbl": "-CF"},
-            {"reject": True, "interactive": True}, {"flavour": "r", "interactive": True}]
+            {"reject": True, "interactive": True}, {"flavour": "r", "interactive": True},
+            {"flavour": "c99", "interactive": True}, {"flavour": "c99", "interactive": False, "tbl": "-Cf"}]
     cases = units.product_unit(run, fd, srcs, cfgs, tag="product", san=True)
     ok = [c for c in cases if c.status == "ok"]
 
@@ -392,7 +407,8 @@ def c03(run):
                      inputs_fn=long_inputs)
     # (b) the scanner's own YY_INPUT (stdio) and in-memory delivery: same specification, same tokens
     cfgs2 = [{"userread": False}, {"userread": False, "interactive": False}, {"userread": False, "tbl": "-Cf"},
-             {"userread": False, "extra_opts": "always-interactive"}, {"userread": False, "extra_opts": "always-interactive", "flavour": "r", "tbl": "-Ca"}]
+             {"userread": False, "extra_opts": "always-interactive"}, {"userread": False, "extra_opts": "always-interactive", "flavour": "r", "tbl": "-Ca"},
+             {"userread": False, "flavour": "c99"}, {"userread": False, "flavour": "c99", "extra_opts": "always-interactive"}]
     cases2 = units.product_unit(run, fd, srcs[:40 if q else 200], cfgs2, tag="stdio", san=True)
 
     def mem_delivery(c, job):
@@ -405,6 +421,7 @@ def c03(run):
         return job
     units.trace_unit(run, [c for c in cases2 if c.status == "ok"], rng, per_case=10 if q else 30, tag="delivery",
                      scripts=False, bufsizes=(0, 1, 3, 8), scheds=[[1], [3], [], [2, 5]], job_filter=mem_delivery, inputs_fn=long_inputs)
+    units.buffer_model_unit(run)
     # known finding: an interactive scanner asks for one more byte after a NUL that completes a token
     def nul_probe(sub):
         P = rulesets.P
@@ -426,7 +443,8 @@ def c13(run):
     # (i) every index the matching loop can form, in every table representation (IndexSafe of MC_Product)
     cfgs = [{"tbl": t, "heap": True, "yymore": True} for t in ("", "-C", "-Cf", "-CF", "-Cfe", "-Ca")] + \
            [{"reject": True, "heap": True, "yymore": True, "array": True}, {"flavour": "r", "heap": True, "yymore": True, "userwrap": True},
-            {"flavour": "r", "heap": True, "reject": True, "array": True}]
+            {"flavour": "r", "heap": True, "reject": True, "array": True}, {"flavour": "c99", "heap": True, "yymore": True, "userwrap": True},
+            {"flavour": "c99", "heap": True, "reject": True, "array": True}]
     cases = units.product_unit(run, fd, srcs, cfgs, tag="product", san=True)
     ok = [c for c in cases if c.status == "ok"]
     # (ii) API histories under ASan/UBSan with the allocation ledger: edits, stack growth, buffers, destroy and reuse
@@ -451,6 +469,7 @@ def c13(run):
         job["sched"] = [7]; job["bufsize"] = 0; job["initsc"] = 0
         return job
     units.trace_unit(run, [c for c in bc if c.status == "ok"], rng, per_case=14, tag="capacity", job_filter=bigjobs, scripts=False)
+    units.buffer_model_unit(run)
     wd = os.path.join(run.work, "histories")
     units.validate_heap(run, [(c, os.path.join(wd, "t-%s.ndjson.heap" % c.id)) for c in ok], "ledger")
     run.assumptions += ["undefined behaviour outside the modelled table/buffer indices and the ledger is observed by the ASan/UBSan monitor attached to every run (reported as event Crash, which no specification action produces)"]
@@ -463,7 +482,8 @@ def c14(run):
     q = run.tier == "quick"
     srcs = fam(run, profiles=("lit", "sc", "trail", "mix"), core=1, rnd=6 if q else 40, hand=False) + rulesets.handwritten()[:3]
     cfgs = [{"heap": True, "yymore": True, "userread": False}, {"heap": True, "reject": True, "userread": False, "array": True},
-            {"heap": True, "flavour": "r", "userwrap": True, "userread": False}, {"heap": True, "tbl": "-Cf", "userread": False}]
+            {"heap": True, "flavour": "r", "userwrap": True, "userread": False}, {"heap": True, "tbl": "-Cf", "userread": False},
+            {"heap": True, "flavour": "c99", "userwrap": True, "userread": False, "yymore": True}]
     cases = units.product_unit(run, fd, srcs, cfgs, tag="product", san=True)
     units.fault_unit(run, [c for c in cases if c.status == "ok"], rng, per_case=2 if q else 6, max_points=30 if q else 200)
     run.assumptions += ["one fault per run (single-fault enumeration over every allocation index / read index of each scenario, capped per scenario in the quick tier)"]
